@@ -41,6 +41,8 @@ struct Sc {
     threads: Vec<(Path, RootedThread)>,
     handles: Vec<(usize, Any, &'static str)>,
     cells: Vec<(String, &'static str)>,
+    /// thread-local mutable cells: (thread, handle, kind, value it must hold now)
+    local: Vec<(usize, Any, &'static str, Option<String>)>,
     n: usize,
 }
 
@@ -87,7 +89,7 @@ fn graph_scenario(input: &str) -> String {
     vm.get_database_mut().set_run_io(true);
     // load what the shapes import once, so that scenarios mostly measure their own values
     let _ = vm.run_expr::<Any>("warm", &format!("{}0", shapes::PRE));
-    let mut sc = Sc { vm: vm.clone(), threads: vec![(vec![0], vm.clone())], handles: vec![], cells: vec![], n: 0 };
+    let mut sc = Sc { vm: vm.clone(), threads: vec![(vec![0], vm.clone())], handles: vec![], cells: vec![], local: vec![], n: 0 };
     let mut cases: Vec<J> = vec![];
     let mut oracle: Vec<J> = vec![];
     let mut counts: std::collections::BTreeMap<String, u64> = Default::default();
@@ -110,8 +112,14 @@ fn graph_scenario(input: &str) -> String {
                 None => break,
             }
         } else {
-            let w = rng.below(100);
-            (if w < 10 {
+            let w = rng.below(112);
+            (if w >= 108 {
+                "readcell"
+            } else if w >= 104 {
+                "storelocal"
+            } else if w >= 100 {
+                "evalcell"
+            } else if w < 10 {
                 "newthread"
             } else if w < 35 {
                 "eval"
@@ -138,10 +146,10 @@ fn graph_scenario(input: &str) -> String {
         let arg_s = |i: usize| -> Option<&'static str> { parts.get(i).and_then(|x| shapes::FAMILIES.iter().find(|f| **f == x.as_str()).cloned()) };
         match op.as_str() {
             "newthread" => {
-                if sc.threads.len() >= 6 {
+                if sc.threads.len() >= 7 {
                     continue;
                 }
-                let cands: Vec<usize> = (0..sc.threads.len()).filter(|i| sc.threads[*i].0.len() < 3).collect();
+                let cands: Vec<usize> = (0..sc.threads.len()).filter(|i| sc.threads[*i].0.len() < 4).collect();
                 let p = arg_n(1).unwrap_or_else(|| *rng.pick(&cands));
                 let nchild = sc.threads.iter().filter(|t| t.0.len() == sc.threads[p].0.len() + 1 && is_prefix(&sc.threads[p].0, &t.0)).count();
                 let t = sc.threads[p].1.new_thread().unwrap();
@@ -248,6 +256,82 @@ fn graph_scenario(input: &str) -> String {
                     }
                 }
             }
+            "ballast" => {
+                // enough live data that the few allocations that follow stay below the heap's
+                // collection threshold: the explicit collections are the only ones
+                let t = arg_n(1).unwrap_or_else(|| rng.below(sc.threads.len() as u64) as usize);
+                let src = format!("{}let array = import! std.array.prim\nrec let go n acc = if n #Int== 0 then acc else go (n #Int- 1) (array.append acc [string.append \"ballast-0123456789\" \"x\"])\nin\ngo 300 []", shapes::PRE);
+                if let Ok((v, _)) = sc.threads[t].1.run_expr::<Any>(&format!("b{}", sc.n), &src) {
+                    sc.handles.push((t, v, "ballast"));
+                    bump("op:ballast", &mut counts);
+                }
+                log.push(format!("ballast {:?}", sc.threads[t].0));
+            }
+            "evalcell" => {
+                let kind: &'static str = match parts.get(1).map(|x| x.as_str()) {
+                    Some("ref") => "ref",
+                    Some("lazy") => "lazy",
+                    _ => if rng.chance(1, 2) { "ref" } else { "lazy" },
+                };
+                let t = arg_n(2).unwrap_or_else(|| rng.below(sc.threads.len() as u64) as usize);
+                let src = if kind == "ref" {
+                    "let st = import! std.st.reference.prim\nst.ref { a = [0], b = \"\" }".to_string()
+                } else {
+                    format!("{}lazy (\\u -> {{ a = [{}, 2, 3], b = string.append \"p\" \"q\" }})", shapes::PRE, sc.n)
+                };
+                log.push(format!("evalcell {} {:?}", kind, sc.threads[t].0));
+                if let Ok((v, _)) = sc.threads[t].1.run_expr::<Any>(&format!("c{}", sc.n), &src) {
+                    let expect = if kind == "ref" { Some("(data 0 (arr (int 0)) (str \"\"))".to_string()) } else { None };
+                    let pending = if kind == "lazy" { Some(format!("(data 0 (arr (int {}) (int 2) (int 3)) (str \"pq\"))", sc.n)) } else { None };
+                    sc.local.push((t, v, kind, expect.or(pending.map(|p| format!("unforced {}", p)))));
+                    bump(&format!("op:evalcell-{}", kind), &mut counts);
+                }
+            }
+            "storelocal" | "readcell" => {
+                if sc.local.is_empty() {
+                    continue;
+                }
+                let i = arg_n(1).unwrap_or_else(|| rng.below(sc.local.len() as u64) as usize);
+                let (t, h, kind, expect) = sc.local[i].clone();
+                let store = op == "storelocal";
+                let src = match (kind, store) {
+                    ("ref", true) => format!(
+                        "{}let st = import! std.st.reference.prim\n\\r -> let u = st.(<-) r {{ a = [{}, {}], b = string.append \"n\" \"m\" }} in st.load r",
+                        shapes::PRE, sc.n, sc.n + 1
+                    ),
+                    ("ref", false) => "let st = import! std.st.reference.prim\n\\r -> st.load r".to_string(),
+                    _ => "let { force } = import! std.lazy\n\\l -> force l".to_string(),
+                };
+                let want = match (kind, store) {
+                    ("ref", true) => format!("(data 0 (arr (int {}) (int {})) (str \"nm\"))", sc.n, sc.n + 1),
+                    _ => expect.clone().unwrap_or_default().trim_start_matches("unforced ").to_string(),
+                };
+                log.push(format!("{} {} of {:?}", op, kind, sc.threads[t].0));
+                let f: Result<(gluon::vm::api::FunctionRef<fn(Any) -> Any>, _), _> = sc.threads[t].1.run_expr(&format!("f{}", sc.n), &src);
+                match f {
+                    Ok((mut f, _)) => match f.call(h.clone()) {
+                        Ok(v) => {
+                            let got = surf::canon_value(v.get_variant());
+                            bump(&format!("op:{}-{}", op, kind), &mut counts);
+                            if got != want {
+                                oracle.push(json!([
+                                    format!("cell-value-changed-across-collections:{}", kind),
+                                    format!("a {} cell of thread {:?} must hold {} but reads {}; op log: {}", kind, sc.threads[t].0, want, got.chars().take(160).collect::<String>(), log.join("; ")),
+                                ]));
+                                break 'outer;
+                            }
+                            sc.local[i].3 = Some(want);
+                        }
+                        Err(_) => bump("op:localcell-call-error", &mut counts),
+                    },
+                    Err(e) => {
+                        bump("op:localcell-eval-error", &mut counts);
+                        if std::env::var("C05_DEBUG").is_ok() {
+                            eprintln!("local cell fn error: {}", e);
+                        }
+                    }
+                }
+            }
             "collect" => {
                 let was_forced = forced.is_some();
                 let t = match forced.take() {
@@ -262,20 +346,27 @@ fn graph_scenario(input: &str) -> String {
                 for p in &before.problems {
                     bump(&format!("snapshot-problem:{}", p), &mut counts);
                 }
-                if before.problems.iter().any(|p| p.starts_with("trace-shape")) {
-                    // the walk itself is not trustworthy here: never compared
-                    bump("skipped:trace-shape", &mut counts);
-                    continue;
+                let mut req = collect_request(&before, &path);
+                if !before.marked.is_empty() {
+                    // mark bits that an earlier collection left behind are part of the state
+                    let idx0 = before.index();
+                    let mut ms: Vec<usize> = before.marked.iter().map(|(_, a)| idx0[a]).collect();
+                    ms.sort();
+                    req.push_str(&format!(" (marked{})", ms.iter().map(|m| format!(" {}", m)).collect::<String>()));
+                    bump("collect-with-stale-marks-in-state", &mut counts);
                 }
-                let req = collect_request(&before, &path);
                 let col0 = COLLECTIONS.load(Ordering::Relaxed);
                 sc.threads[t].1.collect();
                 let ncol = COLLECTIONS.load(Ordering::Relaxed) - col0;
+                let mut marks_after: Vec<(Path, usize)> = vec![];
                 let after_lists: BTreeSet<usize> = {
                     let mut s = BTreeSet::new();
-                    for (_, th) in &sc.threads {
-                        for (a, _, _) in th.verif_heap().1 {
+                    for (tp, th) in &sc.threads {
+                        for (a, _, m) in th.verif_heap().1 {
                             s.insert(a);
+                            if m {
+                                marks_after.push((tp.clone(), a));
+                            }
                         }
                     }
                     s
@@ -292,10 +383,17 @@ fn graph_scenario(input: &str) -> String {
                 }
                 let nthreads = sc.threads.len();
                 let bad = before.bad_edges();
+                let deepest_swept = sc.threads.iter().filter(|t| is_prefix(&path, &t.0)).map(|t| t.0.len() - path.len()).max().unwrap_or(0);
+                bump(&format!("collect-with-descendants-to-depth:+{}", deepest_swept), &mut counts);
+                let freed_below: BTreeSet<usize> = freed.iter().map(|a| before.objs[a].owner.as_ref().map(|o| o.len().saturating_sub(path.len())).unwrap_or(0)).collect();
+                for d in &freed_below {
+                    bump(&format!("collect-freed-garbage-at:+{}", d), &mut counts);
+                }
                 let shape_key = format!(
-                    "thr{}|d{}|objs{}|freed{}|bad{}|cells{}",
+                    "thr{}|d{}+{}|objs{}|freed{}|bad{}|cells{}",
                     nthreads,
                     path.len(),
+                    deepest_swept,
                     before.order.len() / 20,
                     (freed.len() + 9) / 10,
                     bad.len().min(2),
@@ -334,14 +432,30 @@ fn graph_scenario(input: &str) -> String {
                         break;
                     }
                 }
-                if before.problems.iter().any(|p| p == "stale-mark-bit") {
-                    // an earlier collection of a same-generation heap followed a cross-heap pointer and
-                    // left mark bits behind (gc.rs:1398 marks any object that is not OLDER); the model
-                    // has no mark bits: outside its fragment, oracle only
-                    bump("skipped:stale-mark-bit", &mut counts);
-                } else {
-                    cases.push(json!([req, payload, shape_key]));
+                // ---- mark bits: a collection must leave every heap it swept unmarked ----
+                let was_marked: BTreeSet<usize> = before.marked.iter().map(|(_, a)| *a).collect();
+                let mut reported: BTreeSet<String> = BTreeSet::new();
+                for (hp, a) in &marks_after {
+                    let fp = if is_prefix(&path, hp) {
+                        format!("stale-mark-bit:swept-heap:collector+{}", hp.len() - path.len())
+                    } else if was_marked.contains(a) {
+                        continue; // left by an earlier collection, reported there
+                    } else if !bad.is_empty() {
+                        // gc.rs:1398 marks every object that is not OLDER than the collecting heap: an
+                        // object of another heap of the same or a younger generation, reached through a
+                        // cross-heap pointer, keeps the bit because that heap is not swept
+                        "stale-mark-bit:unswept-heap:reached-through-cross-heap-pointer".to_string()
+                    } else {
+                        "stale-mark-bit:unswept-heap:no-cross-heap-pointer".to_string()
+                    };
+                    if reported.insert(fp.clone()) {
+                        oracle.push(json!([
+                            fp,
+                            format!("after collect({:?}) an object of heap {:?} still has its mark bit set (the next collection of that heap will not look inside it); op log: {}", path, hp, log.join("; ")),
+                        ]));
+                    }
                 }
+                cases.push(json!([req, payload, shape_key]));
                 if stop {
                     // memory is corrupt from here on
                     break 'outer;
@@ -650,7 +764,7 @@ fn transparency(args: &Args, out: &mut Out) {
 }
 
 fn graph(args: &Args, out: &mut Out) {
-    let n = if args.thorough() { 600 } else { 45 };
+    let n = if args.thorough() { 600 } else { 40 };
     let steps = if args.thorough() { 40 } else { 30 };
     let mut inputs = vec![];
     // corpus first: the module-level lazy / ref histories (D1) and a plain one
@@ -664,6 +778,38 @@ fn graph(args: &Args, out: &mut Out) {
     ];
     for c in &corpus {
         inputs.push(c.to_string());
+    }
+    // ancestor collects -> fresh value stored into a descendant's pre-existing cell -> descendant
+    // collects -> read; every (owner depth, collector depth) in trees of depth <= 4, both cell kinds
+    for d in 1..=4usize {
+        for a in 1..=d {
+            for kind in ["ref", "lazy"] {
+                let o = d - 1;
+                let c = a - 1;
+                let mut ops: Vec<String> = (0..d - 1).map(|i| format!("newthread:{}", i)).collect();
+                for x in [
+                    format!("ballast:{}", o),
+                    format!("collect:{}", o),
+                    format!("evalcell:{}:{}", kind, o),
+                    format!("eval:rec:{}", o),
+                    "drop:1".to_string(),
+                    format!("collect:{}", c),
+                    "storelocal:0".to_string(),
+                    format!("collect:{}", o),
+                    format!("eval:boxed-array:{}", o),
+                    "readcell:0".to_string(),
+                    format!("eval:shared:{}", o),
+                    "drop:1".to_string(),
+                    format!("collect:{}", c),
+                    "storelocal:0".to_string(),
+                    format!("collect:{}", o),
+                    "readcell:0".to_string(),
+                ] {
+                    ops.push(x);
+                }
+                inputs.push(json!({"seed": 1000 + d * 10 + a, "steps": 60, "ops": ops}).to_string());
+            }
+        }
     }
     for i in 0..n {
         inputs.push(json!({"seed": args.seed * 100_000 + i as u64, "steps": steps}).to_string());
